@@ -296,6 +296,9 @@ func (st *xpState) expandParam(pe *ast.ParamExp, dq bool) ([]xpField, error) {
 			}
 			return nil, nil
 		}
+		if null {
+			return nil, nil // "w is expanded only when it is used" (bash agrees; dash expands it)
+		}
 		wf, err := st.expandWord(pe.Word, false)
 		if err != nil {
 			return nil, err
